@@ -289,6 +289,9 @@ class Compound(Any, tuple, metaclass=abc.ABCMeta):
     def __hash__(self):
         return Any.__hash__(self) ^ tuple.__hash__(self)
 
+    def __getnewargs__(self):
+        return tuple(self)  # constructor arguments (tuple default would pass the whole content as single argument)
+
 
 class Array(Compound):
     """Array data type class.
@@ -340,6 +343,9 @@ class Struct(Compound):
 
     def __new__(cls, **element: 'dsl.Any'):
         return tuple.__new__(cls, [cls.Element(n, k) for n, k in element.items()])
+
+    def __getnewargs_ex__(self):
+        return (), {e.name: e.kind for e in self}
 
 
 def reflect(value: typing.Any) -> 'dsl.Any':
